@@ -6,6 +6,7 @@ import (
 )
 
 var vHarnesses = map[string]func(p []int){
+	"H_C04_maurer":   func(p []int) { H_C04_maurer(p[0], p[1], p[2]) },
 	"H_C16_twosided":  func(p []int) { H_C16_twosided(p[0], p[1], p[2]) },
 	"H_C16_chisquare": func(p []int) { H_C16_chisquare(p[0], p[1], p[2]) },
 	"H_C05_dft":      func(p []int) { H_C05_dft(p[0]) },
